@@ -52,6 +52,7 @@ class FakeProcess:
         env.monitor.on_start(self, slot)
         if slot in env.tick.get("crash", ()) and env.prepared:
             self.state = "zombie"
+            env.pending_deaths.append(self)
 
     def is_alive(self) -> bool:
         caller = sys._getframe(1).f_code.co_name
@@ -189,6 +190,7 @@ class Env:
         self.prepared = False
         self.returned: Any = "running"
         self.late_done = False
+        self.pending_deaths: List[FakeProcess] = []
         monitor.env = self
 
     def trace(self, *ev: Any) -> None:
@@ -230,6 +232,7 @@ class Env:
             if p.state in ("alive", "terminating"):
                 p.state = "zombie"
                 self.trace("dies", p)
+                self.monitor.on_death(p)
         sig = self.tick.get("sig")
         if sig:
             self.deliver(sig)
@@ -282,12 +285,40 @@ def run_history(workers: int, max_fails: int, history: List[Dict[str, Any]], mon
     return env
 
 
+def _canon_val(v: Any, depth: int = 0) -> Any:
+    """Canonical form of a value the manager keeps between ticks (local of start() or attribute)."""
+    if v is None or isinstance(v, (bool, int, float, str, bytes)):
+        return v
+    if isinstance(v, FakeProcess):
+        return ("proc", v.name, v.state)
+    if depth > 3:
+        return type(v).__name__
+    if isinstance(v, (set, frozenset)):
+        return ("set",) + tuple(sorted((_canon_val(x, depth + 1) for x in v), key=repr))
+    if isinstance(v, (list, tuple)):
+        return ("seq",) + tuple(_canon_val(x, depth + 1) for x in v)
+    if isinstance(v, dict):
+        return ("map",) + tuple(sorted(((_canon_val(k, depth + 1), _canon_val(x, depth + 1)) for k, x in v.items()), key=repr))
+    if hasattr(v, "worker_num"):
+        return (type(v).__name__, getattr(v, "worker_num", None))
+    return type(v).__name__
+
+
 def _restarts_from_tb(tb: Any) -> Any:
+    """Every local variable of ProcessManager.start() as it stands at the tick boundary: whatever the
+    manager remembers from earlier ticks (the restart counter; any set/flag a change may add) is part
+    of the canonical state, so two histories are merged only if the manager itself cannot tell them apart."""
     while tb is not None:
         if tb.tb_frame.f_code.co_name == "start":
-            return tb.tb_frame.f_locals.get("restarts")
+            loc = tb.tb_frame.f_locals
+            return tuple(sorted((k, _canon_val(v)) for k, v in loc.items() if k != "self"))
         tb = tb.tb_next
     return None
+
+
+def _manager_attrs(mgr: Any) -> Any:
+    skip = {"workers", "action_queue", "args", "worker_function", "observer"}
+    return tuple(sorted((k, _canon_val(v)) for k, v in vars(mgr).items() if k not in skip))
 
 
 def canonical(env: Env) -> Any:
@@ -296,7 +327,7 @@ def canonical(env: Env) -> Any:
         return ("end", env.returned)
     slots = tuple(p.state for p in env.manager.workers)
     q = tuple((type(i).__name__, getattr(i, "worker_num", None), getattr(i, "is_reload_all", None), o) for i, o, _ in env.queue.items)
-    return ("run", slots, q, getattr(env, "restarts", None), env.monitor.state())
+    return ("run", slots, q, getattr(env, "restarts", None), _manager_attrs(env.manager), env.monitor.state())
 
 
 def tick_alphabet(workers: int, deviations: bool) -> List[Dict[str, Any]]:
